@@ -19,6 +19,8 @@ TECH = ("chain of exact identities at the symbolic state psi=1, mu=0, epsilon=1,
 
 def check(ctx):
     repo = ctx.repo
+    ctx.rule("R17.7", "the options of a saved run come back as they were: an option saved as None (terminal_psi = None: unpinned terminals) is not restored "
+                      "as its default (shared with C14 R14.2)", 1)
     ctx.rule("R17.6", "in the stationary state the adaptive rule does run: it is gated by the solve-step counter only, and proposes min(1/2(dt + dt_init/1e-10), dt_max) = dt_max (shared with C12 R12.1)", 2)
     ctx.rule("R17.5", "the screening error is well defined for the current-free state: |dA| / max(|A|, positive constant) (shared with C13 R13.4)", 1)
     ctx.rule("R17.1", "at A = 0 the link variable is 1 and every row of psi_gradient / psi_laplacian (unpinned) sums to zero", 3)
@@ -142,6 +144,11 @@ def check(ctx):
     c12.check(Shared(ctx, {"R12.1": "R17.6"}, only=lambda inst: inst.startswith("the rule applies only") or inst.startswith("tentative_dt =="),
                      consequence="the time step of the undriven uniform state never grows to dt_max (e.g. it sticks at dt_init whenever "
                                  "save_every <= adaptive_window + 1)"))
+    from ..report import Shared
+    from . import c14
+    c14.options_none(Shared(ctx, {"R14.2": "R17.7"},
+                            consequence="a quiet run with unpinned terminals that is saved, reloaded and continued with the reloaded options pins psi = 0 on the "
+                                        "terminals: the uniform state is no longer stationary"))
     ctx.assume("exact arithmetic: whether floating-point row sums and sqrt((2z+1)^2) are exact is declined")
     ctx.assume("mu = 0 follows from the linear solve of a zero right-hand side (D.0 - B.0)")
     ctx.decline("'the adaptive time step grows to its maximum' needs dt_init/1e-10 >= 2 dt_max - dt, a relation between user options")
